@@ -98,10 +98,27 @@ def run(ctx):
                            'the shape of generate() was understood (secret and public leaves found)', fpm.where,
                            found='%d secret / %d public' % (len(sec_paths), len(pub_paths)))
                 v, f = ev.call_function('__main__.paranoia_mode', [full])
-                if T.tag(v) != 'dict':
-                    ob.undecided('paranoia_mode does not evaluate to a dictionary-shaped value: %s' % T.show(v, maxdepth=3))
+                alts = distinct_normal_leaves(v)
+                if not alts or any(T.tag(x) != 'dict' for x in alts):
+                    ob.undecided('paranoia_mode does not evaluate to dictionary-shaped values: %s' % T.show(v, maxdepth=3))
                     continue
-                out = dict(flatten(v))
+                if len(alts) > 1:
+                    ob.note('the filter result depends on the data (%d alternatives)' % len(alts))
+                # the sinks substitute a freshly generated, UNFILTERED wallet for a falsy `data`: the filtered value must
+                # therefore be non-empty on every path (or the sinks must not have that fall-back)
+                if any(len(x[1]) == 0 for x in alts):
+                    from .C20 import sinks_fall_back_on_empty
+                    ob.require(not sinks_fall_back_on_empty(p),
+                               'for some wallet data (e.g. an empty interval) paranoia_mode returns an empty mapping, which '
+                               'pprint/export_wallet treat as "no data" and replace by a freshly generated unfiltered wallet: '
+                               'every secret is emitted although --paranoia was given', fpm.where,
+                               found='alternatives with keys %s' % sorted({tuple(T.show(a) for a, _ in x[1]) for x in alts}))
+                out = {}
+                for alt in alts:
+                    for pth, t in flatten(alt):
+                        out.setdefault(pth, t)
+                        if out[pth] != t:
+                            ob.require(False, 'filtered leaf %s differs between alternatives of the filter' % pth, fpm.where)
                 ob.require(len(out) >= 15, 'the filtered output keeps the public records', fpm.where, found=len(out))
                 for pth, t in sorted(out.items()):
                     require_no_opaque(ob, t, 'filtered leaf %s' % pth)
@@ -112,10 +129,15 @@ def run(ctx):
                                'filtered leaf %s is not the unfiltered value at the same place' % pth, fpm.where,
                                expected=T.show(full_leaves.get(pth), maxdepth=3) if pth in full_leaves else 'same access path in generate()',
                                found=T.show(t, maxdepth=3))
+                if len(alts) == 1:
+                    pass
                 # everything public in the BIP44/49/84 records survives the filter
                 for pth in pub_paths:
-                    if pth.startswith(("['BIP44']", "['BIP49']", "['BIP84']")):
+                    if pth.startswith(("['BIP44']", "['BIP49']", "['BIP84']")) and len(alts) == 1:
                         ob.require(pth in out, 'public leaf %s of the full output is missing from the filtered output' % pth, fpm.where)
+    # ---------------------------------------------------------------- the sinks emit the data they are given
+    from .C20 import check_sinks
+    check_sinks(ctx, 'C15.SINKS')
     # ---------------------------------------------------------------- ordering in main(): see C20 (shared analysis)
     from .C20 import main_paths
     fmain = p.get_function('__main__.main')
